@@ -100,7 +100,15 @@ pub fn gen_cfg(r: &mut Rng, rg: &Regime) -> GenCfg {
     executors.dedup();
     let ask_fee = if r.chance(rg.fee_pct) { Some((r.pick(&pool).clone(), r.pick(rg.rates).to_string())) } else { None };
     let bid_fee = if r.chance(rg.fee_pct) { Some((r.pick(&pool).clone(), r.pick(rg.rates).to_string())) } else { None };
-    let ask_attrs = if r.chance(rg.attrs_pct) { vec!["kyc".to_string()] } else { vec![] };
+    let ask_attrs: Vec<String> = if r.chance(rg.attrs_pct) {
+        match r.below(3) {
+            0 => vec!["kyc".to_string()],
+            1 => vec!["kyc".to_string(), "acc".to_string()],
+            _ => vec!["acc".to_string(), "x".to_string()],
+        }
+    } else {
+        vec![]
+    };
     let bid_attrs = if r.chance(rg.attrs_pct) { vec!["kyc".to_string(), "acc".to_string()] } else { vec![] };
     GenCfg { prec, inc, convs, quotes, approvers, executors, ask_fee, bid_fee, ask_attrs, bid_attrs, markers, pool }
 }
